@@ -70,6 +70,15 @@ let rec dump (b : Buffer.t) (j : jval) : unit =
   | JObj l -> Buffer.add_string b (Printf.sprintf "O%d" (List.length l));
       List.iter (fun (k, x) -> Buffer.add_char b ' '; Buffer.add_string b (hex_of_bytes k); Buffer.add_char b ' '; dump b x) l
 
+(* long lines (up to a few 100 KiB) make the extracted structural recursions deep: re-run under a big stack *)
+let () =
+  if Sys.getenv_opt "C01_DRV_BIGSTACK" = None then begin
+    let args = String.concat " " (List.map Filename.quote (List.tl (Array.to_list Sys.argv))) in
+    let cmd = Printf.sprintf "ulimit -s unlimited 2>/dev/null || ulimit -s 4000000 2>/dev/null; C01_DRV_BIGSTACK=1 exec %s %s"
+        (Filename.quote Sys.executable_name) args in
+    exit (Sys.command cmd)
+  end
+
 let () =
   if Array.length Sys.argv >= 3 && Sys.argv.(1) = "-parse" then begin
     iter_lines Sys.argv.(2) (fun line ->
@@ -82,7 +91,7 @@ let () =
     let cases = ref 0 and specfail = ref 0 and drift = ref 0 and mismatch = ref 0 and bad = ref 0 in
     iter_lines Sys.argv.(1) (fun line ->
       match split_ws line with
-      | "E" :: toks ->
+      | ("E" | "EL") :: toks ->
           incr cases;
           (match (try Some (parse_case toks) with Bad _ | Failure _ | Invalid_argument _ -> None) with
            | None -> incr bad; incr mismatch; Printf.printf "MISMATCH %s\nINFO unreadable case line\n" line
@@ -92,7 +101,7 @@ let () =
                incr specfail;
                Printf.printf "SPECFAIL %s\n" line;
                if !specfail <= 20 then
-                 Printf.printf "INFO specfail #%d: one_write=%b single_line=%b object_decodes_to_expected=%b observed=%s\n" !specfail v.one_write v.line_ok v.spec_ok
+                 Printf.printf "INFO specfail #%d: one_write=%b single_line=%b object_decodes_to_expected=%b line_is_utf8=%b observed=%s\n" !specfail v.one_write v.line_ok v.spec_ok v.utf8_line
                    (String.concat " | " (List.map (fun w -> String.escaped (String.concat "" (List.map (fun x -> String.make 1 (Char.chr (int_of_n x land 255))) w))) ws)) end
              else if not v.wf_ok then begin
                incr mismatch; Printf.printf "MISMATCH %s\nINFO the oracle texts of this case do not satisfy wf_chain / wf_record\n" line end
